@@ -367,9 +367,15 @@ def machine_reuse_jobs(tier):
         j["harness"] = "../C10/" + j["harness"]
         j["mem_gb"] = 6
         J.append(j)
+    reused = list(J)
+    J = []
+    for j in mjobs.answer_oom_jobs(tier) + mjobs.requeue_oom_jobs(tier):
+        j = dict(j)
+        J.append(j)
+    J, own = reused, J
     for j in J:
         j["bound"] = j.get("bound", "") + " [harness reused: its witnesses 'failed' / 'open failed' and 'completed synchronously' / 'pending' / 'open ok' play the role of 'allocation failure reported' / 'no failure']"
-    return J
+    return J + own
 
 
 def search_jobs(tier):
